@@ -38,11 +38,11 @@ def cases(tier):
                         out.append((role, marker, tuple(ch), tuple(cb), tuple(et)))
     # the same rule in software contexts where the report has nothing else to say: unrecognised software (no recommendations at all)
     # and a configuration without any other finding (post-quantum kex, AEAD cipher, encrypt-then-MAC MACs only)
-    for ctx in ('unrecognised', 'flawless'):
+    for ctx in ('unrecognised', 'flawless', 'dropbear', 'libssh', 'tinyssh', 'old-openssh'):
         for role in ('server', 'client'):
             for marker in ('none', 'own', 'other', 'both'):
                 for ch in ([], ['chacha20-poly1305@openssh.com']):
-                    for cb in ([], ['aes128-cbc']) if ctx == 'unrecognised' else ([],):
+                    for cb in ([], ['aes128-cbc']) if ctx != 'flawless' else ([],):
                         for et in ([], ['hmac-sha2-256-etm@openssh.com'], ['hmac-sha2-256-etm@openssh.com', 'hmac-sha2-512-etm@openssh.com']):
                             out.append((role, marker, tuple(ch), tuple(cb), tuple(et), ctx))
     # names the database does not know standing before, between and after the names it knows, family by family: what is said about one
@@ -86,7 +86,8 @@ def cases(tier):
     return out
 
 
-CTX_BANNER = {'default': b'SSH-2.0-OpenSSH_9.6', 'mixed': b'SSH-2.0-OpenSSH_9.6', 'nearmiss': b'SSH-2.0-OpenSSH_9.6', 'hangup': b'SSH-2.0-OpenSSH_9.6', 'unrecognised': b'SSH-2.0-AcmeSSH_1.0', 'flawless': b'SSH-2.0-OpenSSH_9.6'}
+CTX_BANNER = {'dropbear': b'SSH-2.0-dropbear_2022.83', 'libssh': b'SSH-2.0-libssh_0.10.5', 'tinyssh': b'SSH-2.0-tinyssh_20230101', 'old-openssh': b'SSH-2.0-OpenSSH_7.4',
+              'default': b'SSH-2.0-OpenSSH_9.6', 'mixed': b'SSH-2.0-OpenSSH_9.6', 'nearmiss': b'SSH-2.0-OpenSSH_9.6', 'hangup': b'SSH-2.0-OpenSSH_9.6', 'unrecognised': b'SSH-2.0-AcmeSSH_1.0', 'flawless': b'SSH-2.0-OpenSSH_9.6'}
 
 
 def banner_of(case):
@@ -181,7 +182,7 @@ def check_case(case, st):
     role, marker, ch, cb, et = case[:5]
     problems = []
     fmts = ['text', 'json']
-    if len(case) > 5 and case[5] in ('mixed', 'unrecognised', 'flawless'):
+    if len(case) > 5 and case[5] in ('mixed', 'unrecognised', 'flawless', 'dropbear'):
         # the JSON document does not depend on the minimum level or on verbosity; the text report at -v says the same about Terrapin
         fmts += ['json+-l fail', 'json+-l warn', 'json+-v', 'json+-j', 'text+-v', 'text+-b']
     for fmt in fmts:
